@@ -61,9 +61,6 @@ Proof.
     rewrite IH by assumption. unfold dstep at 2. f_equal. unfold zlen. cbn [length]. lia.
 Qed.
 
-Definition no_digit_head (rest : list Z) : Prop :=
-  match rest with [] => True | c :: _ => is_digit c = false end.
-
 Lemma read_digits_stop rest a c : no_digit_head rest -> read_digits rest a c = (a, c, rest).
 Proof. destruct rest; cbn; intros H; [reflexivity | rewrite H; reflexivity]. Qed.
 
@@ -153,10 +150,6 @@ Proof.
 Qed.
 
 (* ================================================================== numbers *)
-
-(* what may follow a number token without being absorbed by it *)
-Definition num_safe (rest : list Z) : Prop :=
-  match rest with [] => True | c :: _ => is_digit c = false /\ c <> 46 /\ c <> 101 /\ c <> 69 end.
 
 Lemma num_safe_no_digit rest : num_safe rest -> no_digit_head rest.
 Proof. destruct rest; cbn; tauto. Qed.
@@ -620,8 +613,6 @@ Qed.
 
 (* ================================================================== parse_render, top level *)
 
-Definition all_ws (w : list Z) : Prop := Forall (fun c => is_ws c = true) w.
-
 Lemma skip_ws_app w l : all_ws w -> skip_ws (w ++ l) = skip_ws l.
 Proof. induction 1 as [|c w Hc _ IH]; [reflexivity|]. cbn [app skip_ws]. rewrite Hc. exact IH. Qed.
 
@@ -678,19 +669,6 @@ Qed.
 
 (* ================================================================== concatenated documents *)
 
-Definition doc_text (dw : list ev * list Z) : list Z := render (fst dw) ++ snd dw.
-Definition docs_text (dws : list (list ev * list Z)) : list Z := concat (map doc_text dws).
-
-(* every document but the last is followed by at least one whitespace character *)
-Fixpoint seps_ok (dws : list (list ev * list Z)) : Prop :=
-  match dws with
-  | [] => True
-  | dw :: rest => match rest with [] => True | _ => snd dw <> [] end /\ seps_ok rest
-  end.
-
-Definition doc_ok (dw : list ev * list Z) : Prop :=
-  wf (fst dw) = true /\ printable (fst dw) = true /\ all_ws (snd dw).
-
 Lemma do_parse_loop_docs o dws : Forall doc_ok dws -> seps_ok dws ->
   forall fuel acc w0, all_ws w0 -> (length (w0 ++ docs_text dws) < fuel)%nat ->
   do_parse_loop fuel o (w0 ++ docs_text dws) acc =
@@ -723,8 +701,6 @@ Proof.
     + cbn [rev map fst]. rewrite <- app_assoc. reflexivity.
     + rewrite !app_length in *. pose proof (render_length d PStart Pd). pose proof (wfv_length d Wd). cbn [length] in L. lia.
 Qed.
-
-Definition do_parse_text (o : jopts) (bs : list Z) : jres := do_parse_loop (S (length bs)) o bs [].
 
 (** (d) k well-formed documents, separated by whitespace, give exactly k entries *)
 Theorem concat_docs_text o w0 dws : all_ws w0 -> Forall doc_ok dws -> seps_ok dws ->
@@ -815,7 +791,7 @@ Qed.
 
 Lemma item_wfv o c : forall q idx out, item o q c idx = Ok out -> wfv out.
 Proof.
-  induction c as [dt shape data| |w offs c IHc|w ss se c IHc|c IHc size zl|w ix c IHc|w ix c IHc|m vw c IHc|m vw lsb n c IHc|c IHc|w tags ix cs IHcs|cs ks n IHcs|arr rn c IHc] using content_ind'; intros q idx out H; cbn [item] in H.
+  induction c as [dt shape data| |w offs c IHc|w ss se c IHc|c size zl IHc|w ix c IHc|w ix c IHc|m vw c IHc|m vw lsb n c IHc|c IHc|w tags ix cs IHcs|cs ks n IHcs|arr rn c IHc] using content_ind'; intros q idx out H; cbn [item] in H.
   - destruct shape as [|n dims]; [discriminate|]. inv_bind H. eapply np_block_wfv; exact H.
   - discriminate.
   - inv_bind H. inv_bind H. eapply range_events_wfv; [|exact H]. intros; eapply IHc; eassumption.
@@ -838,4 +814,349 @@ Theorem events_wellformed_strong o c evs : tojson_events o c = Ok evs -> wf evs 
 Proof.
   intros H. apply wf_iff. unfold tojson_events in H.
   eapply range_events_wfv; [|exact H]. intros; eapply item_wfv; eassumption.
+Qed.
+
+(* ---- the texts of the theorem contain no NUL, so the C-string view is the text itself *)
+Definition nz (b : Z) : Prop := b <> 0.
+
+Lemma cstr_id l : Forall nz l -> cstr l = l.
+Proof.
+  induction 1 as [|b l Hb _ IH]; [reflexivity|]. cbn [cstr].
+  rewrite (proj2 (Z.eqb_neq b 0) Hb). rewrite IH. reflexivity.
+Qed.
+
+Lemma hexdigit_nz n : 0 <= n -> nz (hexdigit n).
+Proof. unfold nz, hexdigit. destruct (n <? 10); lia. Qed.
+
+Lemma esc_byte_nz c : 0 <= c -> Forall nz (esc_byte c).
+Proof.
+  intros H. unfold esc_byte, nz.
+  destruct (c =? 34); [repeat constructor; lia|].
+  destruct (c =? 92); [repeat constructor; lia|].
+  destruct (c =? 8); [repeat constructor; lia|].
+  destruct (c =? 12); [repeat constructor; lia|].
+  destruct (c =? 10); [repeat constructor; lia|].
+  destruct (c =? 13); [repeat constructor; lia|].
+  destruct (c =? 9); [repeat constructor; lia|].
+  destruct (c <? 32) eqn:E.
+  - repeat constructor; try lia; apply hexdigit_nz; [apply Z.div_pos; lia | apply Z.mod_pos_bound; lia].
+  - repeat constructor. lia.
+Qed.
+
+Lemma render_string_nz s : forallb is_byte s = true -> Forall nz (render_string s).
+Proof.
+  intros H. unfold render_string. constructor; [unfold nz; lia|]. apply Forall_app. split.
+  - apply forallb_byte_nonneg in H. induction H as [|c s Hc _ IH]; cbn [flat_map]; [constructor|].
+    apply Forall_app. split; [apply esc_byte_nz; exact Hc | exact IH].
+  - repeat constructor. unfold nz; lia.
+Qed.
+
+Lemma digits_nz l : Forall (fun d => is_digit d = true) l -> Forall nz l.
+Proof. apply Forall_impl. intros d H. apply is_digit_iff in H. unfold nz. lia. Qed.
+
+Lemma dec_nz z : Forall nz (dec z).
+Proof.
+  unfold dec. destruct (z <? 0) eqn:E.
+  - constructor; [unfold nz; lia|]. apply digits_nz, dec_nat_digits. lia.
+  - apply digits_nz, dec_nat_digits. lia.
+Qed.
+
+Lemma tok_nz e : printable_ev e = true -> Forall nz (tok e).
+Proof.
+  destruct e; cbn [tok printable_ev]; intros P; try (repeat constructor; unfold nz; lia).
+  - destruct b; repeat constructor; unfold nz; lia.
+  - apply dec_nz.
+  - destruct r; try discriminate. cbn [render_real]. apply Forall_app. split; [apply dec_nz|].
+    repeat constructor; unfold nz; lia.
+  - apply render_string_nz; exact P.
+  - apply render_string_nz; exact P.
+Qed.
+
+Lemma render_nz evs : forall p, printable evs = true -> Forall nz (render_from p evs).
+Proof.
+  induction evs as [|e evs IH]; intros p P; [constructor|].
+  cbn in P. apply andb_true_iff in P. destruct P as [Pe Ps]. cbn [render_from].
+  apply Forall_app. split; [|apply Forall_app; split; [apply tok_nz; exact Pe | apply IH; exact Ps]].
+  destruct p; cbn [sep]; [constructor | repeat constructor; unfold nz; lia |].
+  destruct (is_end e); [constructor | repeat constructor; unfold nz; lia].
+Qed.
+
+Lemma ws_nz w : all_ws w -> Forall nz w.
+Proof. apply Forall_impl. intros c H. unfold is_ws in H. unfold nz. lia. Qed.
+
+Lemma docs_text_nz dws : Forall doc_ok dws -> Forall nz (docs_text dws).
+Proof.
+  induction 1 as [|[d w] dws (_ & P & Hw) _ IH]; [constructor|].
+  unfold docs_text. cbn [map concat]. unfold doc_text at 1. cbn [fst snd] in *.
+  rewrite <- app_assoc. apply Forall_app. split; [apply render_nz; exact P|].
+  apply Forall_app. split; [apply ws_nz; exact Hw | exact IH].
+Qed.
+
+(** (d) for FromJsonString's view of the text *)
+Theorem concat_docs_lemma o w0 dws : all_ws w0 -> Forall doc_ok dws -> seps_ok dws ->
+  do_parse o (w0 ++ docs_text dws) = JDocs (map (fun dw => map (handler o) (fst dw)) dws).
+Proof.
+  intros Hw Hok Hsep. unfold do_parse. rewrite cstr_id.
+  - apply concat_docs_text; assumption.
+  - apply Forall_app. split; [apply ws_nz; exact Hw | apply docs_text_nz; exact Hok].
+Qed.
+
+(* documents whose strings do not collide with the substitution strings and whose keys have no NUL
+   come back unchanged *)
+Definition handler_neutral (o : jopts) (e : ev) : Prop := handler o e = e.
+
+Corollary concat_docs_neutral o w0 dws : all_ws w0 -> Forall doc_ok dws -> seps_ok dws ->
+  Forall (fun dw => Forall (handler_neutral o) (fst dw)) dws ->
+  do_parse o (w0 ++ docs_text dws) = JDocs (map fst dws).
+Proof.
+  intros Hw Hok Hsep Hn. rewrite concat_docs_lemma by assumption. f_equal.
+  apply map_ext_in. intros dw Hin. rewrite Forall_forall in Hn. specialize (Hn dw Hin).
+  induction Hn as [|e es He _ IH]; [reflexivity|]. cbn [map]. rewrite He, IH. reflexivity.
+Qed.
+
+(* ================================================================== list plumbing for (b) *)
+
+Lemma mapM_Forall2 {A B} (f : A -> res B) l : forall ys,
+  mapM f l = Ok ys <-> Forall2 (fun x y => f x = Ok y) l ys.
+Proof.
+  induction l as [|a l IH]; intros ys; cbn [mapM]; split; intros H.
+  - injection H as <-. constructor.
+  - inversion H. reflexivity.
+  - inv_bind H. inv_bind H. injection H as <-. constructor; [assumption | apply IH; assumption].
+  - inversion H as [|? y ? ys' Hy Hys]; subst. rewrite Hy. cbn [bind].
+    rewrite (proj2 (IH ys') Hys). reflexivity.
+Qed.
+
+Lemma Forall2_firstn {A B} (R : A -> B -> Prop) k : forall l l', Forall2 R l l' -> Forall2 R (firstn k l) (firstn k l').
+Proof. induction k; intros l l' H; [constructor|]. destruct H; cbn; constructor; auto. Qed.
+
+Lemma Forall2_skipn {A B} (R : A -> B -> Prop) k : forall l l', Forall2 R l l' -> Forall2 R (skipn k l) (skipn k l').
+Proof. induction k; intros l l' H; [exact H|]. destruct H; cbn; [constructor | auto]. Qed.
+
+Lemma Forall2_len {A B} (R : A -> B -> Prop) l l' : Forall2 R l l' -> length l = length l'.
+Proof. induction 1; cbn; congruence. Qed.
+
+Lemma Forall2_imp {A B} (R S : A -> B -> Prop) l l' : (forall x y, R x y -> S x y) -> Forall2 R l l' -> Forall2 S l l'.
+Proof. intros HI. induction 1; constructor; auto. Qed.
+
+Lemma Forall2_map_r {A B C} (R : A -> C -> Prop) (g : B -> C) l l' :
+  Forall2 (fun x y => R x (g y)) l l' -> Forall2 R l (map g l').
+Proof. induction 1; cbn; constructor; auto. Qed.
+
+Lemma Forall2_comp {A B C} (R : A -> B -> Prop) (S : B -> C -> Prop) l1 l2 : Forall2 R l1 l2 ->
+  forall l3, Forall2 S l2 l3 -> Forall2 (fun x z => exists y, R x y /\ S y z) l1 l3.
+Proof.
+  induction 1; intros l3 H3; inversion H3; subst; constructor; eauto.
+Qed.
+
+Lemma iota_nat_length s n : length (iota_nat s n) = n.
+Proof. revert s. induction n; intros s; cbn; [reflexivity | rewrite IHn; reflexivity]. Qed.
+
+Lemma iota_nat_firstn n : forall s k, (k <= n)%nat -> firstn k (iota_nat s n) = iota_nat s k.
+Proof.
+  induction n; intros s k Hk.
+  - assert (k = 0%nat) by lia. subst. reflexivity.
+  - destruct k; [reflexivity|]. cbn. rewrite IHn by lia. reflexivity.
+Qed.
+
+Lemma iota_nat_skipn n : forall s k, (k <= n)%nat -> skipn k (iota_nat s n) = iota_nat (s + Z.of_nat k) (n - k).
+Proof.
+  induction n; intros s k Hk.
+  - assert (k = 0%nat) by lia. subst. cbn. reflexivity.
+  - destruct k.
+    + cbn [skipn]. replace (s + Z.of_nat 0) with s by lia. reflexivity.
+    + cbn [skipn iota_nat]. rewrite IHn by lia. replace (s + 1 + Z.of_nat k) with (s + Z.of_nat (S k)) by lia. reflexivity.
+Qed.
+
+Lemma range_of_iota n a b : 0 <= a -> a <= b -> b <= n ->
+  range a b = take (b - a) (drop a (iota n)).
+Proof.
+  intros Ha Hab Hbn. unfold range, take, drop, iota.
+  rewrite iota_nat_skipn by lia. rewrite iota_nat_firstn by lia. f_equal. lia.
+Qed.
+
+Lemma get_app_here {A} (pre l : list A) x : get (pre ++ x :: l) (zlen pre) = Ok x.
+Proof.
+  unfold get, zlen. replace (Z.of_nat (length pre) <? 0) with false by lia.
+  rewrite Nat2Z.id. rewrite nth_error_app2 by lia. rewrite Nat.sub_diag. reflexivity.
+Qed.
+
+Lemma get_iota_gen {A} (l : list A) : forall pre,
+  Forall2 (fun i x => get (pre ++ l) i = Ok x) (iota_nat (zlen pre) (length l)) l.
+Proof.
+  induction l as [|x l IH]; intros pre; cbn [length iota_nat]; constructor.
+  - apply get_app_here.
+  - specialize (IH (pre ++ [x])). rewrite <- app_assoc in IH. cbn [app] in IH.
+    unfold zlen in *. rewrite app_length in IH. cbn [length] in IH.
+    replace (Z.of_nat (length pre + 1)) with (Z.of_nat (length pre) + 1) in IH by lia. exact IH.
+Qed.
+
+Lemma get_iota {A} (l : list A) : Forall2 (fun i x => get l i = Ok x) (iota (zlen l)) l.
+Proof.
+  pose proof (get_iota_gen l []) as H. cbn [app] in H. unfold iota, zlen in *.
+  rewrite Nat2Z.id. exact H.
+Qed.
+
+Lemma Forall2_iota_nth {A} (P : Z -> A -> Prop) (l : list A) : forall s,
+  Forall2 P (iota_nat s (length l)) l -> forall k v, nth_error l k = Some v -> P (s + Z.of_nat k) v.
+Proof.
+  induction l as [|x l IH]; intros s H k v Hk; [destruct k; discriminate|].
+  cbn [length iota_nat] in H. inversion H; subst. destruct k.
+  - injection Hk as <-. replace (s + Z.of_nat 0) with s by lia. assumption.
+  - cbn [nth_error] in Hk. replace (s + Z.of_nat (S k)) with (s + 1 + Z.of_nat k) by lia. eapply IH; eassumption.
+Qed.
+
+Lemma Forall2_get {A} (P : Z -> A -> Prop) (l : list A) j v :
+  Forall2 P (iota (zlen l)) l -> get l j = Ok v -> P j v.
+Proof.
+  intros H G. unfold get in G. destruct (j <? 0) eqn:E; [discriminate|].
+  destruct (nth_error l (Z.to_nat j)) eqn:N; [|discriminate]. injection G as ->.
+  unfold iota, zlen in H. rewrite Nat2Z.id in H.
+  pose proof (Forall2_iota_nth P l 0 H _ _ N) as Q. rewrite Z2Nat.id in Q by lia. exact Q.
+Qed.
+
+Lemma slice_inv {A} (l : list A) a b s : slice l a b = Ok s ->
+  0 <= a /\ a <= b /\ b <= zlen l /\ s = take (b - a) (drop a l).
+Proof.
+  unfold slice. destruct ((0 <=? a) && (a <=? b) && (b <=? zlen l)) eqn:E; [|discriminate].
+  intros H. injection H as <-. repeat split; lia.
+Qed.
+
+Lemma nth_error_skipn {A} (l : list A) : forall k x, nth_error l k = Some x -> exists t, skipn k l = x :: t.
+Proof.
+  induction l as [|y l IH]; intros k x H; [destruct k; discriminate|].
+  destruct k; [injection H as ->; cbn; eauto | cbn; eapply IH; exact H].
+Qed.
+
+Lemma slice_one {A} (l : list A) i x : get l i = Ok x -> slice l i (i + 1) = Ok [x].
+Proof.
+  intros G. unfold get in G. destruct (i <? 0) eqn:E; [discriminate|].
+  destruct (nth_error l (Z.to_nat i)) eqn:N; [|discriminate]. injection G as ->.
+  assert (L : (Z.to_nat i < length l)%nat) by (apply nth_error_Some; congruence).
+  unfold slice, zlen. replace ((0 <=? i) && (i <=? i + 1) && (i + 1 <=? Z.of_nat (length l))) with true by lia.
+  unfold take, drop. destruct (nth_error_skipn _ _ _ N) as (t & ->).
+  replace (Z.to_nat (i + 1 - i)) with 1%nat by lia. reflexivity.
+Qed.
+
+(* the items of a slice of a list, through a pointwise property indexed by position *)
+Lemma Forall2_slice {A} (P : Z -> A -> Prop) (l : list A) a b s :
+  Forall2 P (iota (zlen l)) l -> slice l a b = Ok s -> Forall2 P (range a b) s.
+Proof.
+  intros H S. destruct (slice_inv _ _ _ _ S) as (Ha & Hab & Hb & ->).
+  rewrite (range_of_iota (zlen l)) by lia. unfold take, drop.
+  apply Forall2_firstn, Forall2_skipn. exact H.
+Qed.
+
+(* ================================================================== (b) events fold back into the value *)
+
+(** [ev_val e v]: the complete event sequence [e] denotes the value [v] *)
+Inductive ev_val : list ev -> value -> Prop :=
+| EV_null : ev_val [ENull] VNone
+| EV_bool b : ev_val [EBool b] (VBool b)
+| EV_int z : ev_val [EInt z] (VNum (DZ z))
+| EV_real r d : datum_of r = Ok d -> ev_val [EReal r] (VNum d)
+| EV_str s : ev_val [EStr s] (VStr true s)
+| EV_arr es vs : ev_vals es vs -> ev_val (ESA :: es ++ [EEA]) (VList vs)
+| EV_obj es kvs : ev_kvs es kvs -> ev_val (ESO :: es ++ [EEO]) (VRec kvs)
+with ev_vals : list ev -> list value -> Prop :=
+| EVS_nil : ev_vals [] []
+| EVS_cons e es v vs : ev_val e v -> ev_vals es vs -> ev_vals (e ++ es) (v :: vs)
+with ev_kvs : list ev -> list (name * value) -> Prop :=
+| EVK_nil : ev_kvs [] []
+| EVK_cons k e es v kvs : ev_val e v -> ev_kvs es kvs -> ev_kvs (EKey k :: e ++ es) ((k, v) :: kvs).
+
+Scheme ev_val_mut := Minimality for ev_val Sort Prop
+  with ev_vals_mut := Minimality for ev_vals Sort Prop
+  with ev_kvs_mut := Minimality for ev_kvs Sort Prop.
+Combined Scheme ev_mutind from ev_val_mut, ev_vals_mut, ev_kvs_mut.
+
+Lemma ev_val_head e v : ev_val e v -> exists h t, e = h :: t /\ is_start h = true.
+Proof. destruct 1; eauto. Qed.
+
+Lemma ev_val_length e v : ev_val e v -> (1 <= length e)%nat.
+Proof. intros H. destruct (ev_val_head e v H) as (h & t & -> & _). cbn. lia. Qed.
+
+Lemma jval_complete :
+  (forall e v, ev_val e v -> forall r f, (length e < f)%nat -> jval f (e ++ r) = Ok (v, r)) /\
+  (forall es vs, ev_vals es vs -> forall r f, (length es + 1 < f)%nat -> jvals f (es ++ EEA :: r) = Ok (vs, r)) /\
+  (forall es kvs, ev_kvs es kvs -> forall r f, (length es + 1 < f)%nat -> jkvs f (es ++ EEO :: r) = Ok (kvs, r)).
+Proof.
+  apply ev_mutind.
+  - intros r [|f] L; [cbn in L; lia | reflexivity].
+  - intros b r [|f] L; [cbn in L; lia | reflexivity].
+  - intros z r [|f] L; [cbn in L; lia | reflexivity].
+  - intros x d Hd r [|f] L; [cbn in L; lia |]. cbn [app jval]. rewrite Hd. reflexivity.
+  - intros s r [|f] L; [cbn in L; lia | reflexivity].
+  - intros es vs _ IH r [|f] L; [cbn in L; lia|].
+    cbn [app jval]. rewrite <- app_assoc. cbn [app]. rewrite IH; [reflexivity|].
+    cbn [length] in L. rewrite app_length in L. cbn in L. lia.
+  - intros es kvs _ IH r [|f] L; [cbn in L; lia|].
+    cbn [app jval]. rewrite <- app_assoc. cbn [app]. rewrite IH; [reflexivity|].
+    cbn [length] in L. rewrite app_length in L. cbn in L. lia.
+  - intros r [|f] L; [cbn in L; lia | reflexivity].
+  - intros e es v vs He IHe _ IHs r [|f] L; [cbn in L; lia|].
+    rewrite app_length in L. pose proof (ev_val_length e v He).
+    destruct (ev_val_head e v He) as (h & t & -> & Hh).
+    cbn [jvals app]. rewrite <- app_assoc.
+    assert (E : jval f ((h :: t) ++ es ++ EEA :: r) = Ok (v, es ++ EEA :: r)) by (apply IHe; lia).
+    cbn [app] in E. destruct h; try discriminate Hh; rewrite E; cbn [bind fst snd]; rewrite IHs by lia; reflexivity.
+  - intros r [|f] L; [cbn in L; lia | reflexivity].
+  - intros k e es v kvs He IHe _ IHs r [|f] L; [cbn in L; lia|].
+    cbn [length] in L. rewrite app_length in L. pose proof (ev_val_length e v He).
+    cbn [jkvs app]. rewrite <- app_assoc.
+    rewrite IHe by lia. cbn [bind fst snd]. rewrite IHs by lia. reflexivity.
+Qed.
+
+Lemma json_value_of e v : ev_val e v -> json_value e = Ok (v, []).
+Proof.
+  intros H. unfold json_value. pose proof (proj1 jval_complete e v H [] (S (length e)) ltac:(lia)) as E.
+  rewrite app_nil_r in E. exact E.
+Qed.
+
+(* ---- leaves *)
+Lemma real_ev_val o d : ev_val [real_ev o d] (jv o (VNum d)).
+Proof.
+  destruct d as [z| |[|]]; cbn [real_ev jv].
+  - constructor. reflexivity.
+  - destruct (nan_s o); constructor. reflexivity.
+  - destruct (minf_s o); constructor. reflexivity.
+  - destruct (inf_s o); constructor. reflexivity.
+Qed.
+
+Lemma scalar_ev_val o dt d : (dt = DUInt64 -> datum_i64 d = true) ->
+  ev_val [scalar_ev o dt d] (jv o (leaf dt d)).
+Proof.
+  intros Hu. destruct dt; cbn [scalar_ev leaf]; try apply real_ev_val;
+    try (destruct d; [constructor | apply real_ev_val | apply real_ev_val]).
+  - (* bool *) destruct d; constructor.
+  - (* uint64 *) destruct d as [z| |n]; try apply real_ev_val.
+    specialize (Hu eq_refl). cbn in Hu. rewrite wrap64_small by lia. constructor.
+Qed.
+
+(* ---- assembling items *)
+Definition item_ok (o : jopts) (c : content) (i : Z) (v : value) : Prop :=
+  exists e, item o None c i = Ok e /\ ev_val e (jv o v).
+
+Lemma Forall2_build {I} (f : I -> res (list ev)) (g : value -> value) is vs :
+  Forall2 (fun i v => exists e, f i = Ok e /\ ev_val e (g v)) is vs ->
+  exists xs, mapM f is = Ok xs /\ ev_vals (concat xs) (map g vs).
+Proof.
+  induction 1 as [|i v is vs (e & He & Hv) _ (xs & Hxs & Hvs)].
+  - exists []. split; [reflexivity | constructor].
+  - exists (e :: xs). split; [cbn [mapM]; rewrite He, Hxs; reflexivity|].
+    cbn [concat map]. constructor; assumption.
+Qed.
+
+(* the range a..b of a child prints as the array of the corresponding slice of its values *)
+Lemma range_items o c vs a b l : chars_of None c = None ->
+  Forall2 (item_ok o c) (iota (zlen vs)) vs -> cut1 vs (a, b) = Ok l ->
+  exists e, range_events (item o None c) (chars_of None c) a b = Ok e /\ ev_val e (jv o (VList l)).
+Proof.
+  intros Hc HF Hcut. rewrite Hc. unfold range_events.
+  assert (G : Forall2 (item_ok o c) (range a b) l).
+  { unfold cut1 in Hcut. destruct (a =? b) eqn:E.
+    - injection Hcut as <-. replace b with a by lia. unfold range. rewrite Z.sub_diag. constructor.
+    - eapply Forall2_slice; eassumption. }
+  destruct (Forall2_build _ (jv o) _ _ G) as (xs & Hxs & Hvs).
+  rewrite Hxs. cbn [bind]. eexists. split; [reflexivity|]. cbn [jv]. constructor. exact Hvs.
 Qed.
